@@ -4,10 +4,11 @@
    PathFNode) and merge, collect_repairs/traverse, rank_cnds, simplify_repairs
    (lrpar/src/lib/cpctplus.rs).  Executable definitions only.
 
-   [fixed = false] is the code as pinned: `shift` keeps its neighbour only `if n.pstack != n_pstack`.
-   [fixed = true] is the proposed repair: the neighbour is also kept when a lexeme was consumed.
+   [fixed = true] is the code as it is now (/repo cf71a95): `shift` keeps its neighbour
+   `if n.pstack != n_pstack || new_laidx > laidx`.  [fixed = false] is the code as it was pinned:
+   only `if n.pstack != n_pstack` (refuted in C06/Refuted.v).
    Fuel stands for the time budget (one unit per node popped); u16 cost arithmetic is explicit
-   (checked_add(..).unwrap() = Panic above 65535). *)
+   (a neighbour whose cost exceeds 65535 is skipped, the search ends when the cost counter would). *)
 From Coq Require Import List Arith NArith Bool Lia.
 From GV Require Import Common.Outcome Base.Grammar LR.Automaton Repair.Semantics Repair.Search C06.Model.
 Import ListNotations.
@@ -148,9 +149,9 @@ Definition state_actions (s : N) : list N := filter (fun t => negb (is_err (acti
 
 Definition same_states (a b : vstack) : bool := listN_eqb (map fst a) (map fst b).
 
-(* n.cf.checked_add(cost).unwrap() *)
-Definition add_cost (cf c : N) : outcome N :=
-  if (u16max <? cf + c)%N then Panic else Done (cf + c)%N.
+(* n.cf.checked_add(cost): None when the u16 cost would overflow (the neighbour is skipped) *)
+Definition add_cost (cf c : N) : option N :=
+  if (u16max <? cf + c)%N then None else Some (cf + c)%N.
 
 (* each neighbour allocates one repair node: [ctr] = the next free identity *)
 Fixpoint nb_insert (n : node) (toks : list N) (ctr : N) : outcome (list (N * node) * N) :=
@@ -160,9 +161,12 @@ Fixpoint nb_insert (n : node) (toks : list N) (ctr : N) : outcome (list (N * nod
       if N.eqb t (eof g) then nb_insert n ts ctr else
       match lr_cactus1 g A input ifuel (Some t) (n_stk n) (n_la n) with
       | AShift stk' =>
-          do cf <- add_cost (n_cf n) (tcost costs t);
-          do rc <- nb_insert n ts (ctr + 1)%N;
-          Done ((cf, mkNode stk' (n_la n) (RRep ctr (Ins t) (n_rep n)) cf) :: fst rc, snd rc)
+          match add_cost (n_cf n) (tcost costs t) with
+          | None => nb_insert n ts ctr
+          | Some cf =>
+              do rc <- nb_insert n ts (ctr + 1)%N;
+              Done ((cf, mkNode stk' (n_la n) (RRep ctr (Ins t) (n_rep n)) cf) :: fst rc, snd rc)
+          end
       | APanic => Panic
       | AFuel => OutOfFuel
       | _ => nb_insert n ts ctr
@@ -171,8 +175,10 @@ Fixpoint nb_insert (n : node) (toks : list N) (ctr : N) : outcome (list (N * nod
 
 Definition nb_delete (n : node) (ctr : N) : outcome (list (N * node) * N) :=
   if Nat.eqb (n_la n) (length input) then Done ([], ctr) else
-  do cf <- add_cost (n_cf n) (tcost costs (la g input (n_la n)));
-  Done ([(cf, mkNode (n_stk n) (S (n_la n)) (RRep ctr Del (n_rep n)) cf)], (ctr + 1)%N).
+  match add_cost (n_cf n) (tcost costs (la g input (n_la n))) with
+  | None => Done ([], ctr)
+  | Some cf => Done ([(cf, mkNode (n_stk n) (S (n_la n)) (RRep ctr Del (n_rep n)) cf)], (ctr + 1)%N)
+  end.
 
 Definition nb_shift (n : node) (ctr : N) : outcome (list (N * node) * N) :=
   match lr_cactus1 g A input ifuel None (n_stk n) (n_la n) with
@@ -226,7 +232,7 @@ Fixpoint phase1 (fuel : nat) (todo : buckets) (tlen : N) (c : N) (ctr : N) : out
   | S f =>
       match bget todo c with
       | [] =>
-          if (u16max <=? c)%N then Panic else
+          if (u16max <=? c)%N then Done [] else          (* c.checked_add(1) is None *)
           if N.eqb (c + 1) tlen then Done [] else phase1 f todo tlen (c + 1)%N ctr
       | n :: rest =>
           let todo1 := bset todo c rest in
